@@ -233,6 +233,8 @@ def enumerate_faults(m, doc, rng, charset, icvn, kinds=None, alphabet=None):
             while len(nv) < len(node.children):
                 nv.append('')
             nv.append('X1')
+            # one, two or three elements too many (a gap among them allowed): the error stands at the first position beyond the definition
+            nv += rng.choice([[], [], ['X2'], ['', 'X3'], ['X2', 'X3']])
             out.append({'kind': 'too_many_ele', 'line': line, 'ele': len(node.children) + 1, 'comp': None, 'op': 'replace',
                         'new_vals': nv, 'code': '3', 'value': None, 'neutral': True, 'ref': None, 'seg_id': seg['id']})
         if 'missing_required_comp' in kinds:
